@@ -68,4 +68,14 @@ theorem iterLoop_succ (T : EnglishTables) (f : Nat) (body : List Item) (hasMax :
       | error e => rfl
       | ok r => obtain ⟨s1, fl⟩ := r; cases fl <;> rfl
 
+theorem takeWhile_append_all {α : Type} (p : α → Bool) (xs ys : List α) :
+    (xs ++ ys).takeWhile p = if xs.all p then xs ++ ys.takeWhile p else xs.takeWhile p := by
+  induction xs with
+  | nil => simp
+  | cons x xs ih =>
+    by_cases hx : p x = true
+    · simp only [List.cons_append, List.takeWhile_cons, hx, if_true, List.all_cons, Bool.true_and, ih]
+      split <;> rfl
+    · simp [List.takeWhile_cons, hx]
+
 end SlipVerif.Format
